@@ -258,6 +258,15 @@ def run(ctx):
             badw.append(w_)
     ctx.check(not badw, R, 'multi|thread-count-only-defaulted', badw[0] if badw else M, 'num_threads is only replaced by hardware_concurrency() when it is 0',
               'num_threads is modified by `%s`: the number of result sets can differ from the number of workers parallel_range_blocks starts (0 means "hardware default" there), so thread_rets[thread_num] / thread_rets[0] can be out of range' % (src_text(badw[0], 80) if badw else ''))
+    # one result set per worker: the vector is sized by num_threads *after* the 0 = "hardware default"
+    # case has been resolved here (the callee resolves it too, but only for its own copy)
+    tr_ = next((v for v in walk(mb) if v.get('kind') == 'VarDecl' and (dtype(v) or '').startswith('std::vector<') and any((ref_decl(y) or {}).get('id') == ntp['id'] for y in walk(v))), None)
+    if tr_ is None:
+        ctx.undecided(R, 'multi|one-set-per-worker', M, 'the per-thread result vector sized by num_threads was not found')
+    else:
+        resolved = [w_ for w_ in writes if w_ not in badw and w_.get('_off', 0) < tr_.get('_off', 0)]
+        ctx.check(bool(resolved), R, 'multi|one-set-per-worker', tr_, 'thread_rets(num_threads) is built after num_threads == 0 was replaced by hardware_concurrency()',
+                  'the per-thread result vector is sized by num_threads while 0 still means "hardware default": with the default argument it is empty, yet parallel_range_blocks starts hardware_concurrency() workers that index it (and the merge reads element 0)')
     lam = [x for x in walk(mb) if x.get('kind') == 'LambdaExpr']
     okl = len(lam) == 1
     if okl:
